@@ -112,13 +112,22 @@ Proof. destruct a; simpl; [auto|discriminate]. Qed.
 (* ---- a user-written name is kept verbatim when it collides with nothing ---- *)
 
 Theorem C13_user_name_verbatim (name suffix : string) (t : ty) :
-  name <> "" -> name <> "_" -> var_name name t suffix = (name ++ suffix)%string.
+  name <> "" -> name <> "_" ->
+  (name ++ suffix)%string <> "mock" -> (name ++ suffix)%string <> "callInfo" ->
+  var_name name t suffix = (name ++ suffix)%string.
 Proof.
-  intros H1 H2. unfold var_name, var_name_with.
+  intros H1 H2 H3 H4. unfold var_name, var_name_with.
   destruct (String.eqb name "") eqn:E1; [apply String.eqb_eq in E1; contradiction|].
   destruct (String.eqb name "_") eqn:E2; [apply String.eqb_eq in E2; contradiction|].
-  reflexivity.
+  cbn [negb andb].
+  destruct (String.eqb_spec (name ++ suffix) "mock"); [contradiction|].
+  destruct (String.eqb_spec (name ++ suffix) "callInfo"); [contradiction|]. reflexivity.
 Qed.
+
+(* the two names the generated body declares itself are the only user names that change *)
+Theorem C13_user_name_body_idents (t : ty) :
+  var_name "mock" t "" = "mockMoqParam" /\ var_name "callInfo" t "" = "callInfoMoqParam".
+Proof. split; reflexivity. Qed.
 
 Lemma nth_error_app_last {A} (l : list A) (x : A) : nth_error (l ++ [x]) (List.length l) = Some x.
 Proof. induction l; simpl; auto. Qed.
@@ -128,7 +137,7 @@ Proof. induction l; simpl; auto. Qed.
    the allocated variable carries exactly the user's name *)
 Theorem C13_kept_partial (cfg : rcfg) (r r1 r' : registry) (sc sc' : scope)
         (name : string) (t : ty) (imps : list (string * bool)) (idx : nat) :
-  name <> "" -> name <> "_" ->
+  name <> "" -> name <> "_" -> name <> "mock" -> name <> "callInfo" ->
   populate cfg r (refs t) [] = Ok (r1, imps) ->
   search_import r1 name = None ->
   has_var (rename_for_imports (sc_vars sc) (map (imp_qualifier r1) imps)) name = false ->
@@ -136,11 +145,11 @@ Theorem C13_kept_partial (cfg : rcfg) (r r1 r' : registry) (sc sc' : scope)
   add_var cfg r sc name t "" = Ok (r', sc', idx) ->
   exists v, nth_error (sc_vars sc') idx = Some v /\ v_name v = name /\ v_ty v = t.
 Proof.
-  intros N1 N2 HP HS HV HC. unfold add_var. rewrite HP. simpl.
+  intros N1 N2 N3 N4 HP HS HV HC. unfold add_var. rewrite HP. simpl.
   destruct (rename_order_sensitive _ && _); [discriminate|].
-  rewrite (C13_user_name_verbatim name "" t N1 N2).
   assert (E : (name ++ "")%string = name).
   { clear. induction name; simpl; [reflexivity|f_equal; assumption]. }
+  rewrite (C13_user_name_verbatim name "" t N1 N2) by (rewrite E; assumption).
   rewrite E. rewrite HS. rewrite HV, HC. simpl.
   intros H. inversion H; subst. eexists. split; [apply nth_error_app_last|]. split; reflexivity.
 Qed.
